@@ -60,13 +60,13 @@ void verif_locks_reset(void) {
 
 /* the global nesting order as practised by the library (bidib_init_mutexes acquires the locks in this very
  * sequence): trains rwlock -> track-state mutexes (accessories, peripherals, segments, reversers, trains,
- * boosters, track outputs) -> boards rwlock -> action id -> send-order mutex (L_OTHER) -> node table ->
- * send buffer -> uplink queues.  A lock may only be acquired while locks of strictly lower rank are held;
+ * boosters, track outputs) -> boards rwlock -> send-order mutex (L_OTHER) -> node table ->
+ * send buffer -> uplink queues -> action id (leaf).  A lock may only be acquired while locks of strictly lower rank are held;
  * the one exception is a read acquisition of an rwlock the thread already holds for reading (legal with
  * glibc's reader-preferring default, counted in verif_recursive_reads). */
 static const int verif_rank[L_COUNT] = {
 	[L_TRAINS_RW] = 0, [L_ACCESSORIES] = 1, [L_PERIPHERALS] = 2, [L_SEGMENTS] = 3, [L_REVERSERS] = 4,
-	[L_TS_TRAINS] = 5, [L_BOOSTERS] = 6, [L_TRACK_OUTPUTS] = 7, [L_BOARDS_RW] = 8, [L_ACTION_ID] = 9,
+	[L_TS_TRAINS] = 5, [L_BOOSTERS] = 6, [L_TRACK_OUTPUTS] = 7, [L_BOARDS_RW] = 8, [L_ACTION_ID] = 16,
 	[L_OTHER] = 10, [L_NODE_TABLE] = 11, [L_SEND_BUFFER] = 12, [L_UPLINK] = 13, [L_UPLINK_ERR] = 14,
 	[L_UPLINK_INTERN] = 15,
 };
